@@ -310,6 +310,77 @@ func runC09(c *Ctx) {
 			})
 		}
 		c.verdict(okNext, c.nm(fn)+" | catch-up fetches height curStamp.Height+1", c.P.Pos(fn.Pos()), "next header requested by height+1", "the catch-up branch does not fetch exactly the next height")
+		// ... of the position as it is when the header is fetched: nothing
+		// that can move rs.curStamp (a call handed its address: updateFilter
+		// rewinds through it; a store into it) lies between reading the height
+		// and fetching the next header
+		var stale []string
+		for _, in := range find(fn, callTo(gbh)) {
+			a := argsOf(in)[0]
+			var loads []*ssa.UnOp
+			ir.DerivesFrom(a, func(x ssa.Value) bool {
+				if u, ok := x.(*ssa.UnOp); ok && u.Op == token.MUL && isLoadOfPath(u, rsF("curStamp"), stampHeight) {
+					loads = append(loads, u)
+				}
+				return false
+			})
+			// one iteration of the outermost loop around the fetch
+			var outer *ssa.BasicBlock
+			for _, b := range fn.Blocks {
+				if len(ir.BackEdgesTo(b)) > 0 && ir.LoopBlocks(b)[in.Block()] {
+					if outer == nil || len(ir.LoopBlocks(b)) > len(ir.LoopBlocks(outer)) {
+						outer = b
+					}
+				}
+			}
+			iterCut := ir.Cut{}
+			if outer != nil {
+				iterCut = ir.BackEdgesTo(outer)
+			}
+			for _, ld := range loads {
+				ir.WalkAfter(ld, iterCut, func(x ssa.Instruction) bool {
+					if x == in {
+						return false
+					}
+					moves := false
+					if st, ok := x.(*ssa.Store); ok {
+						for a := st.Addr; a != nil; {
+							fa, isFA := a.(*ssa.FieldAddr)
+							if !isFA {
+								break
+							}
+							if ir.FieldOfAddr(fa) == rsF("curStamp") {
+								moves = true
+							}
+							a = fa.X
+						}
+					}
+					if cc := ir.CallOf(x); cc != nil {
+						for _, arg := range cc.Args {
+							if fa, ok := arg.(*ssa.FieldAddr); ok && ir.FieldOfAddr(fa) == rsF("curStamp") {
+								moves = true
+							}
+						}
+					}
+					if moves {
+						// only if the fetch is still ahead
+						reaches := false
+						ir.WalkAfter(x, iterCut, func(y ssa.Instruction) bool {
+							if y == in {
+								reaches = true
+							}
+							return !reaches
+						})
+						if reaches {
+							stale = append(stale, "the height read at "+c.at(ld)+" can be moved by "+c.at(x)+" before the header is fetched at "+c.at(in))
+						}
+					}
+					return true
+				})
+			}
+		}
+		sort.Strings(stale)
+		c.verdict(len(stale) == 0, c.nm(fn)+" | the next height is computed from the position at the time of the fetch", c.P.Pos(fn.Pos()), "nothing moves rs.curStamp between reading its height and fetching the next header", join(uniq(stale)))
 	})
 
 	c.rule("C09.V2", "no spend of a watched outpoint is skipped: spendsWatchedInput compares every input of the transaction with every watched input: from each input the loop over the watch list is always entered, and for each (input, watched input) pair the comparison in.PreviousOutPoint == input.OutPoint is reached unless the watched entry is the zero outpoint (script matching); a match returns true", func() {
